@@ -168,8 +168,10 @@ def gen_mm_fit(g, kind, method=None, D=None, iterations=None):
     else:
         a['num_classes'] = K
     if g.coin(0.35):
-        a['saliency'] = g.arr(g.choice(['uniform', 'integers', 'uniform_zeros']),
-                              lead + [N], low=1, high=3)
+        sk = g.choice(['uniform', 'integers', 'uniform_zeros', 'uniform'])
+        hi = 3 if sk != 'uniform' else g.choice([3, 3, 1e-2, 1e-4])
+        a['saliency'] = g.arr(sk, lead + [N], low=hi / 3 if sk == 'uniform' else 1,
+                              high=hi)
     if kind == 'cacgmm':
         if g.coin(0.5):
             opts['covariance_norm'] = g.choice(['eigenvalue', 'trace', False])
@@ -426,7 +428,8 @@ def gen_dist_fit(g, kind, D=None):
     else:
         a['y'] = g.arr('normal', lead + [N, D], dtype=g.rdtype())
     if kind != 'cacg' and g.coin(0.5):
-        a['saliency'] = g.arr('uniform', lead + [N], low=0.1, high=2.0)
+        sc = g.choice([1.0, 1.0, 1e-2, 1e-4])
+        a['saliency'] = g.arr('uniform', lead + [N], low=0.1 * sc, high=2.0 * sc)
     if kind == 'gaussian':
         a['opts']['covariance_type'] = g.choice(['full', 'diagonal', 'spherical'])
     if kind == 'vmf' and g.coin(0.3):
@@ -725,12 +728,14 @@ class _Psd:
         v = g.choice(['nomask', 'mask_ft', 'mask_fkt', 'mask_kft',
                       'sensor_last', 'nonorm', 'time_first'])
         a = {'variant': v}
+        okind = 'cnormal' if g.coin(0.85) else 'normal'   # real input is valid
+        dt = g.cdtype() if okind == 'cnormal' else g.rdtype()
         if v == 'sensor_last':
-            a['x'] = g.arr('cnormal', [F, T, D], dtype=g.cdtype())
+            a['x'] = g.arr(okind, [F, T, D], dtype=dt)
         elif v == 'time_first':
-            a['x'] = g.arr('cnormal', [T, F, D], dtype=g.cdtype())
+            a['x'] = g.arr(okind, [T, F, D], dtype=dt)
         else:
-            a['x'] = g.arr('cnormal', [F, D, T], dtype=g.cdtype())
+            a['x'] = g.arr(okind, [F, D, T], dtype=dt)
         if v in ('mask_ft', 'nonorm'):
             a['mask'] = g.arr('uniform', [F, T], dtype=g.rdtype())
         elif v == 'mask_fkt':
@@ -1126,6 +1131,9 @@ class _Metric:
     @staticmethod
     def gen(g):
         K, D, T = g.K(), int(g.choice([1, 2, 3])), int(g.choice([16, 40]))
+        if g.big or g.coin(0.02):
+            T = int(g.choice([70000, 140000]))     # long recordings
+            K = 2
         return {'which': g.choice(_Metric.WHICH),
                 'images': g.arr('normal', [K, D, T], dtype='float64'),
                 'noise': g.arr('normal', [D, T], dtype='float64'),
